@@ -50,14 +50,33 @@ Qed.
 Definition part (s : st) : Prop :=
   Permutation (map cid (calls s) ++ run_ids (log s) ++ cancelled_ids (log s)) (seq 0 (next s)).
 
+(** a never-rescheduled call that has run is older than every never-rescheduled pending call with the same time *)
+Definition Kinv (s : st) : Prop :=
+  forall ci, In ci (runs (log s)) -> cres ci = false ->
+  Forall (fun c => getTime c = getTime ci -> cres c = false -> (cid ci < cid c)%nat) (calls s).
+
 Record Inv (s : st) : Prop := mkInv {
   inv_part : part s;
   inv_co : StronglySorted Rco (calls s);
-  inv_log : Forall good_ev (log s)
+  inv_log : Forall good_ev (log s);
+  inv_k : Kinv s;
+  inv_ro : StronglySorted Rrun (runs (log s))
 }.
 
+Lemma runs_cons : forall e l, runs (e :: l) = run_of e ++ runs l.
+Proof. reflexivity. Qed.
+
+Lemma ran_lt : forall s ci, part s -> In ci (runs (log s)) -> (cid ci < next s)%nat.
+Proof.
+  intros s ci Hp Hin.
+  assert (Hi : In (cid ci) (seq 0 (next s))).
+  { eapply Permutation_in; [exact Hp|]. apply in_or_app. right. apply in_or_app. left.
+    unfold run_ids. apply in_map. exact Hin. }
+  apply in_seq in Hi. lia.
+Qed.
+
 Lemma Inv_init : Inv init.
-Proof. split; cbn; constructor. Qed.
+Proof. split; cbn; try constructor. Qed.
 
 Lemma ids_lt : forall s c, part s -> In c (calls s) -> (cid c < next s)%nat.
 Proof.
@@ -78,10 +97,12 @@ Proof. intros c' H b _ _ H1. congruence. Qed.
 Lemma Inv_emit_plain : forall s e,
   run_of e = [] -> cancel_of e = [] -> good_ev e -> Inv s -> Inv (emit e s).
 Proof.
-  intros s e Hr Hc Hg [Hp Hco Hl]. split.
+  intros s e Hr Hc Hg [Hp Hco Hl Hk Hro]. split.
   - unfold part, emit, run_ids, runs, cancelled_ids in *. cbn. rewrite Hr, Hc. cbn. exact Hp.
   - exact Hco.
   - cbn. constructor; assumption.
+  - unfold Kinv in *. cbn [log emit calls]. rewrite runs_cons, Hr. exact Hk.
+  - cbn [log emit]. rewrite runs_cons, Hr. exact Hro.
 Qed.
 
 Lemma Inv_classify : forall s i, Inv s -> Inv (emit (classify i s) s).
@@ -96,17 +117,20 @@ Lemma Inv_replace : forall s c c' e,
   run_of e = [] -> cancel_of e = [] -> good_ev e ->
   Inv s -> Inv (mkSt (replace_id c' (calls s)) (now s) (next s) (e :: log s) (oof s)).
 Proof.
-  intros s c c' e Hf Hres Hr Hc Hg [Hp Hco Hl]. split.
+  intros s c c' e Hf Hres Hr Hc Hg [Hp Hco Hl Hk Hro]. split.
   - unfold part, run_ids, runs, cancelled_ids in *. cbn. rewrite Hr, Hc, replace_id_map. cbn. exact Hp.
   - cbn. apply replace_id_ordered; [apply Rco_res_r | apply Rco_res_l | exact Hco]; exact Hres.
   - cbn. constructor; assumption.
+  - unfold Kinv in *. cbn [log calls]. rewrite runs_cons, Hr. intros ci Hin Hci.
+    apply replace_id_Forall; [intros _ Hx; congruence | apply Hk; assumption].
+  - cbn [log]. rewrite runs_cons, Hr. exact Hro.
 Qed.
 
 Lemma Inv_exec_bop : forall s b, Inv s -> Inv (exec_bop s b).
 Proof.
-  intros s b H. destruct b as [d|i|i x|i x|]; cbn.
+  intros s b H. destruct b as [d|i|i x|i x| |]; cbn.
   - (* callLater *)
-    destruct H as [Hp Hco Hl]. split.
+    destruct H as [Hp Hco Hl Hk Hro]. split.
     + unfold part in *. cbn [calls next log]. rewrite run_ids_cons, cancelled_ids_cons.
       cbn [run_of cancel_of map app]. rewrite seq_S. cbn [plus].
       eapply perm_trans.
@@ -117,9 +141,14 @@ Proof.
       * apply ordered_app_one; [exact Hco|].
         apply Forall_forall. intros a Ha _ _ _. cbn. apply ids_lt; assumption.
     + cbn. constructor; [exact I | exact Hl].
+    + unfold Kinv in *. cbn [log calls]. rewrite runs_cons. cbn [run_of app]. intros ci Hin Hci.
+      eapply Permutation_Forall; [apply Permutation_sym; apply sort_perm|].
+      apply Forall_app. split; [apply Hk; assumption|]. constructor; [|constructor].
+      intros _ _. cbn. apply (ran_lt s ci Hp Hin).
+    + cbn [log]. rewrite runs_cons. exact Hro.
   - (* cancel *)
     destruct (find_id i (calls s)) as [c|] eqn:Hf; [|apply Inv_classify; exact H].
-    destruct H as [Hp Hco Hl]. destruct (find_id_some _ _ _ Hf) as [Hin Hid]. split.
+    destruct H as [Hp Hco Hl Hk Hro]. destruct (find_id_some _ _ _ Hf) as [Hin Hid]. split.
     + unfold part, run_ids, runs, cancelled_ids in *. cbn.
       eapply perm_trans. { apply perm_move_mid. }
       eapply perm_trans; [|exact Hp].
@@ -130,6 +159,9 @@ Proof.
       apply Permutation_map. apply Permutation_sym. apply remove_id_perm. rewrite Hid. exact Hf.
     + cbn. apply remove_id_ordered. exact Hco.
     + cbn. constructor; [exact I | exact Hl].
+    + unfold Kinv in *. cbn [log calls]. rewrite runs_cons. cbn [run_of app]. intros ci Hci Hres.
+      apply remove_id_Forall. apply Hk; assumption.
+    + cbn [log]. rewrite runs_cons. exact Hro.
   - (* reset *)
     destruct (find_id i (calls s)) as [c|] eqn:Hf; [|apply Inv_classify; exact H].
     destruct (find_id_some _ _ _ Hf) as [Hin Hid].
@@ -145,25 +177,26 @@ Proof.
     + apply delay_cres.
     + exact I.
   - apply Inv_emit_plain; cbn; auto.
+  - exact H.
 Qed.
 
-Lemma Inv_exec_body : forall bs s, Inv s -> Inv (fold_left exec_bop bs s).
-Proof.
-  induction bs as [|b r IH]; cbn; intros s H; [exact H|]. apply IH. apply Inv_exec_bop. exact H.
-Qed.
+Lemma Inv_exec_body : forall bs s, Inv s -> Inv (fst (run_body exec_bop bs s)).
+Proof. intros bs s H. apply (run_body_inv st exec_bop Inv Inv_exec_bop). exact H. Qed.
 
 Lemma Inv_sorted : forall s,
   Inv s -> Inv (mkSt (sort getTime (calls s)) (now s) (next s) (log s) (oof s)).
 Proof.
-  intros s [Hp Hco Hl]. split; cbn.
+  intros s [Hp Hco Hl Hk Hro]. split; cbn.
   - unfold part in *. cbn. eapply perm_trans; [|exact Hp].
     apply Permutation_app_tail. apply Permutation_map. apply sort_perm.
   - apply sort_ordered; [|exact Hco]. intros x y Hlt. apply Rco_lt_key. exact Hlt.
   - exact Hl.
+  - intros ci Hin Hci. eapply Permutation_Forall; [apply Permutation_sym; apply sort_perm|]. apply Hk; assumption.
+  - exact Hro.
 Qed.
 
 Lemma Inv_set_oof : forall s b, Inv s -> Inv (mkSt (calls s) (now s) (next s) (log s) b).
-Proof. intros s b [Hp Hco Hl]. split; assumption. Qed.
+Proof. intros s b [Hp Hco Hl Hk Hro]. split; assumption. Qed.
 
 Section WithBody.
   Variable body : nat -> list bop.
@@ -179,14 +212,25 @@ Section WithBody.
       destruct (sort getTime (calls s)) as [|c r] eqn:E.
       + exact Hs.
       + destruct (getTime c <=? now s) eqn:Hdue; [|exact Hs].
-        apply IH. apply Inv_emit_plain; cbn; auto. apply Inv_exec_body.
-        destruct Hs as [Hp Hco Hl]. cbn in *. split; cbn.
-        * unfold part, run_ids, runs in *. cbn in *.
-          eapply perm_trans; [|exact Hp]. apply perm_move_mid2.
-        * inversion Hco; subst. assumption.
-        * constructor; [|exact Hl]. cbn. split; [lia|]. split.
-          { apply (Hmin c r). reflexivity. }
-          { inversion Hco; subst. assumption. }
+        assert (H1 : Inv (mkSt r (now s) (next s) (ERun c (now s) r :: log s) (oof s))).
+        { destruct Hs as [Hp Hco Hl Hk Hro]. cbn [calls now next log oof] in *. split; cbn [calls now next log oof].
+          * unfold part, run_ids, runs in *. cbn in *.
+            eapply perm_trans; [|exact Hp]. apply perm_move_mid2.
+          * inversion Hco; subst. assumption.
+          * constructor; [|exact Hl]. cbn. split; [lia|]. split.
+            { apply (Hmin c r). reflexivity. }
+            { inversion Hco; subst. assumption. }
+          * unfold Kinv in *. cbn [log calls]. rewrite runs_cons. cbn [run_of app]. intros ci [<-|Hin] Hci.
+            { inversion Hco as [|? ? Hr0 Hc0]; subst. eapply Forall_impl; [|exact Hc0].
+              intros o Ho E1 E2. apply Ho; auto. }
+            { specialize (Hk ci Hin Hci). inversion Hk; subst. assumption. }
+          * cbn [log]. rewrite runs_cons. cbn [run_of app]. constructor; [exact Hro|].
+            apply Forall_forall. intros ci Hin E1 E2 E3.
+            specialize (Hk ci Hin E2). inversion Hk as [|? ? Hc0 _]; subst. apply Hc0; auto. }
+        pose proof (Inv_exec_body (body (cid c)) _ H1) as H2.
+        destruct (snd (run_body exec_bop (body (cid c)) (mkSt r (now s) (next s) (ERun c (now s) r :: log s) (oof s)))).
+        * apply Inv_emit_plain; cbn; auto.
+        * apply IH. apply Inv_emit_plain; cbn; auto.
   Qed.
 
   Lemma Inv_step : forall fuel s o, Inv s -> Inv (step body fuel s o).
@@ -195,7 +239,7 @@ Section WithBody.
     - apply Inv_exec_bop. exact H.
     - apply Inv_emit_plain; cbn; auto. apply Inv_loop.
       apply (Inv_emit_plain _ EIter) in H; cbn; auto.
-      destruct H as [Hp Hco Hl]. split; assumption.
+      destruct H as [Hp Hco Hl Hk Hro]. split; assumption.
   Qed.
 
   Lemma Inv_run : forall fuel ops s, Inv s -> Inv (run body fuel s ops).
@@ -250,40 +294,57 @@ Section WithBody.
     rewrite Forall_forall in H. apply H.
   Qed.
 
-  (** after an advance that completed, nothing that is due is still pending *)
-  Lemma loop_done : forall fuel s, oof (loop body fuel s) = false ->
+  (** after an advance that completed (no fuel problem, no exception), nothing that is due is still pending *)
+  Definition ends_with_raise (s : st) : Prop := exists i rest, log s = ERaise i :: rest.
+
+  Lemma loop_done : forall fuel s, oof (loop body fuel s) = false -> ~ ends_with_raise (loop body fuel s) ->
     Forall (fun c => now (loop body fuel s) < getTime c) (calls (loop body fuel s)).
   Proof.
-    induction fuel as [|f IH]; intros s; cbn.
+    induction fuel as [|f IH]; intros s; cbn [loop].
     - pose proof (sort_head_min getTime (calls s)) as Hmin.
       destruct (sort getTime (calls s)) as [|c r] eqn:E; cbn; [constructor|].
       destruct (getTime c <=? now s) eqn:Hdue; cbn; [discriminate|].
-      intros _. specialize (Hmin c r eq_refl). constructor; [lia|].
+      intros _ _. specialize (Hmin c r eq_refl). constructor; [lia|].
       eapply Forall_impl; [|exact Hmin]. cbn. intros a Ha. lia.
     - pose proof (sort_head_min getTime (calls s)) as Hmin.
-      destruct (sort getTime (calls s)) as [|c r] eqn:E; cbn; [constructor|].
-      destruct (getTime c <=? now s) eqn:Hdue; cbn.
-      + apply IH.
-      + intros _. specialize (Hmin c r eq_refl). constructor; [lia|].
+      destruct (sort getTime (calls s)) as [|c r] eqn:E; cbn [calls now]; [constructor|].
+      destruct (getTime c <=? now s) eqn:Hdue.
+      + destruct (snd (run_body exec_bop (body (cid c)) _)).
+        * intros _ Hn. exfalso. apply Hn. eexists _, _. reflexivity.
+        * apply IH.
+      + intros _ _. cbn. specialize (Hmin c r eq_refl). constructor; [lia|].
         eapply Forall_impl; [|exact Hmin]. cbn. intros a Ha. lia.
   Qed.
 
-  Lemma advance_done : forall fuel s a, oof (step body fuel s (Advance a)) = false ->
+  Lemma advance_done : forall fuel s a,
+    oof (step body fuel s (Advance a)) = false -> advance_aborted (step body fuel s (Advance a)) = false ->
     Forall (fun c => now (step body fuel s (Advance a)) < getTime c) (calls (step body fuel s (Advance a))).
-  Proof. intros fuel s a. cbn. apply loop_done. Qed.
+  Proof.
+    intros fuel s a. cbn [step emit oof calls now]. unfold advance_aborted. cbn [log emit].
+    intros Ho Ha. apply loop_done; [exact Ho|]. intros [i [rest E]]. rewrite E in Ha. discriminate.
+  Qed.
+
+  (** an exception raised by a call function leaves every other call as it was: still pending, to be run by
+      a later advance (the partition theorem counts the raising call as run) *)
+  Lemma exec_bop_now : forall b s, now (exec_bop s b) = now s.
+  Proof. intros b s. destruct b; cbn; try reflexivity; destruct (find_id _ _); reflexivity. Qed.
+
+  Lemma run_body_now : forall bs s, now (fst (run_body exec_bop bs s)) = now s.
+  Proof.
+    intros bs s. apply (run_body_inv st exec_bop (fun x => now x = now s)); [|reflexivity].
+    intros x b Hx. rewrite exec_bop_now. exact Hx.
+  Qed.
 
   Lemma loop_now : forall fuel s, now (loop body fuel s) = now s.
   Proof.
-    assert (Hb : forall b s, now (exec_bop s b) = now s).
-    { intros b s. destruct b; cbn; try reflexivity; destruct (find_id _ _); reflexivity. }
-    assert (Hbs : forall bs s, now (fold_left exec_bop bs s) = now s).
-    { induction bs as [|b r IHr]; cbn; intros s; [reflexivity|]. rewrite IHr. apply Hb. }
-    induction fuel as [|f IH]; intros s; cbn.
+    induction fuel as [|f IH]; intros s; cbn [loop].
     - destruct (sort getTime (calls s)) as [|c r]; cbn; [reflexivity|].
       destruct (getTime c <=? now s); reflexivity.
-    - destruct (sort getTime (calls s)) as [|c r]; cbn; [reflexivity|].
-      destruct (getTime c <=? now s); cbn; [|reflexivity].
-      rewrite IH. cbn. rewrite Hbs. reflexivity.
+    - destruct (sort getTime (calls s)) as [|c r]; cbn [now]; [reflexivity|].
+      destruct (getTime c <=? now s); cbn [now]; [|reflexivity].
+      destruct (snd (run_body exec_bop (body (cid c)) _)).
+      + cbn. rewrite run_body_now. reflexivity.
+      + rewrite IH. cbn. rewrite run_body_now. reflexivity.
   Qed.
 
   (** ---- nondecreasing scheduled time (needs non-negative delays / advances) ---- *)
@@ -315,7 +376,7 @@ Section WithBody.
 
   Lemma ND_exec_bop : forall s b, nonneg_bop b -> ND s -> ND (exec_bop s b).
   Proof.
-    intros s b Hnn H. destruct b as [d|i|i x|i x|]; cbn in *.
+    intros s b Hnn H. destruct b as [d|i|i x|i x| |]; cbn in *.
     - destruct H as [H1 H2 H3]. unfold run_times, runs in *. split; cbn; auto.
       intros t c Ht Hin.
       eapply Permutation_in in Hin; [|apply sort_perm].
@@ -331,14 +392,15 @@ Section WithBody.
       apply ND_replace; auto. intros t Ht. rewrite delay_getTime.
       destruct (find_id_some _ _ _ Hf) as [Hin _]. pose proof (nd_pend _ H t c Ht Hin). lia.
     - apply ND_emit_plain; auto.
+    - exact H.
   Qed.
 
   Hypothesis body_nonneg : forall i, Forall nonneg_bop (body i).
 
-  Lemma ND_exec_body : forall bs s, Forall nonneg_bop bs -> ND s -> ND (fold_left exec_bop bs s).
+  Lemma ND_exec_body : forall bs s, Forall nonneg_bop bs -> ND s -> ND (fst (run_body exec_bop bs s)).
   Proof.
     induction bs as [|b r IH]; cbn; intros s Hb H; [exact H|].
-    inversion Hb; subst. apply IH; [assumption|]. apply ND_exec_bop; assumption.
+    inversion Hb; subst. destruct b; try (apply IH; [assumption|]; apply ND_exec_bop; assumption). exact H.
   Qed.
 
   Lemma ND_sorted : forall s, ND s -> ND (mkSt (sort getTime (calls s)) (now s) (next s) (log s) (oof s)).
@@ -358,13 +420,17 @@ Section WithBody.
       destruct (sort getTime (calls s)) as [|c r] eqn:E.
       + exact Hs.
       + destruct (getTime c <=? now s) eqn:Hdue; [|exact Hs].
-        apply IH. apply ND_emit_plain; auto. apply ND_exec_body; [apply body_nonneg|].
-        destruct Hs as [H1 H2 H3]. specialize (Hmin c r eq_refl). rewrite Forall_forall in Hmin.
-        unfold run_times, runs in *. cbn in *. split; cbn.
-        * intros t [<-|Ht]; [lia | auto].
-        * intros t c0 [<-|Ht] Hin; [apply Hmin; exact Hin | apply H2; auto].
-        * constructor; [exact H3|]. apply Forall_forall. intros t Ht.
-          specialize (H2 t c Ht (or_introl eq_refl)). lia.
+        assert (H1 : ND (fst (run_body exec_bop (body (cid c)) (mkSt r (now s) (next s) (ERun c (now s) r :: log s) (oof s))))).
+        { apply ND_exec_body; [apply body_nonneg|].
+          destruct Hs as [H1 H2 H3]. specialize (Hmin c r eq_refl). rewrite Forall_forall in Hmin.
+          unfold run_times, runs in *. cbn in *. split; cbn.
+          * intros t [<-|Ht]; [lia | auto].
+          * intros t c0 [<-|Ht] Hin; [apply Hmin; exact Hin | apply H2; auto].
+          * constructor; [exact H3|]. apply Forall_forall. intros t Ht.
+            specialize (H2 t c Ht (or_introl eq_refl)). lia. }
+        destruct (snd (run_body exec_bop (body (cid c)) _)).
+        * apply ND_emit_plain; auto.
+        * apply IH. apply ND_emit_plain; auto.
   Qed.
 
   Lemma ND_step : forall fuel s o, nonneg_op o -> ND s -> ND (step body fuel s o).
@@ -407,6 +473,9 @@ Proof.
   rewrite Forall_forall in H3. exact (H3 o Ho).
 Qed.
 
+Lemma reach_run_order : forall body fuel ops, StronglySorted Rrun (runs (log (run body fuel init ops))).
+Proof. intros. apply (inv_ro _ (reach_Inv body fuel ops)). Qed.
+
 (** [others] really is the pending set at that moment: the ids pending after the run event are
     accounted for by the partition theorem; here we only expose that the run call itself is not in it *)
 
@@ -432,4 +501,18 @@ Example ex_runs :
   let s := run ex_body 10 init ex_ops in
   rev (run_ids (log s)) = [0; 4; 2; 3]%nat /\ rev (run_times (log s)) = [5; 5; 5; 7]
   /\ cancelled_ids (log s) = [1%nat] /\ calls s = [] /\ oof s = false.
+Proof. vm_compute. repeat split. Qed.
+
+(** a call function that raises: Clock.advance propagates the exception, the call counts as run, the other due
+    calls stay pending and run in the next advance (here advance(0)) *)
+Definition ex_raise_body (i : nat) : list bop :=
+  match i with
+  | 0%nat => [BCallLater 0; BRaise; BCancel 1]
+  | _ => []
+  end.
+Example ex_raise :
+  let s1 := run ex_raise_body 10 init [Do (BCallLater 5); Do (BCallLater 5); Advance 5] in
+  let s2 := step ex_raise_body 10 s1 (Advance 0) in
+  run_ids (log s1) = [0%nat] /\ map cid (calls s1) = [1; 2]%nat /\ advance_aborted s1 = true
+  /\ rev (run_ids (log s2)) = [0; 1; 2]%nat /\ calls s2 = [] /\ advance_aborted s2 = false.
 Proof. vm_compute. repeat split. Qed.
